@@ -14,11 +14,11 @@ from ..runner import Skip
 
 RELS = ["permute_vertices", "permute_edges", "relabel_ids", "shift_2pi", "negate_quaternions", "split_edge", "scale_information"]
 RULE = ("cases from rng(seed, 8, 0, i): relation = i mod 7 of " + ", ".join(RELS) + "; graphs: cluster graphs (mixed pose types, landmarks with rotated offsets, parallel / "
-        "reversed edges) and trajectory graphs; information block-diagonal or with translation-rotation cross terms; K in 1..4 iterations or a run to convergence, fix_first_pose in {True, False}. "
+        "reversed edges) and trajectory graphs; information block-diagonal or with translation-rotation cross terms; K in 1..4 iterations or a run to convergence, fix_first_pose in {True, False}; for 30 % of the K-iteration cases the re-represented graph is also cloned after one iteration (copy.deepcopy, pickle round trip, deep copy of its edge and vertex lists re-listed in a new Graph) and the clone must continue bit-identically. "
         "distinct = fingerprint(spec, relation, K); non-trivial = the relation changed the representation (e.g. at least one quaternion negated / id changed) and the "
         "optimizer moved some vertex by > 1e-6.")
 REQ = ["eval:chi2-representation-invariant", "eval:result-representation-invariant"] + ["rel:" + r for r in RELS] + [
-    "class:info_cross_terms", "class:info_blockdiag", "class:negated_vertex_quat", "class:negated_measurement_quat", "class:negated_offset_quat", "class:run_to_convergence", "class:fix_first_pose=True", "class:fix_first_pose=False", "class:objects_reused_in_second_graph", "class:rerepresented_graph_through_file", "class:whole_turns_written_in_place", "class:graph_with_4000+_edges"]
+    "class:info_cross_terms", "class:info_blockdiag", "class:negated_vertex_quat", "class:negated_measurement_quat", "class:negated_offset_quat", "class:run_to_convergence", "class:fix_first_pose=True", "class:fix_first_pose=False", "class:objects_reused_in_second_graph", "class:rerepresented_graph_through_file", "class:whole_turns_written_in_place", "class:graph_with_4000+_edges", "class:cloned_graph:deepcopy", "class:cloned_graph:pickle", "class:cloned_graph:deepcopy_of_parts"]
 PLAN = {
     "quick": {"cases": 1400, "soft_s": 90, "min_nontrivial": 400, "require": REQ},
     "thorough": {"cases": 56000, "soft_s": 1500, "min_nontrivial": 12000, "require": REQ},
@@ -213,6 +213,33 @@ def relation_check(ctx, rng, spec, rel, mode, cross, cond_max=1e8):
             ctx.count("class:objects_reused_in_second_graph")
         except Exception as ex:
             ctx.check("result-representation-invariant", False, dict(feats, variant="same objects re-listed in a second Graph", exception=type(ex).__name__), {"message": str(ex)[:300]}, case)
+    if mode and rng.random() < 0.3:
+        # object-level copies of a *used* graph (copy.deepcopy / pickle round trip, as client code does to checkpoint or to ship a graph to a worker):
+        # the clone is the same problem in the same representation, so continuing on it gives bit-identical poses
+        import copy
+        import pickle
+
+        how = str(rng.choice(["deepcopy", "pickle", "deepcopy_of_parts"]))
+        try:
+            ga = M.build(spec2)
+            with np.errstate(all="ignore"):
+                M.quiet_optimize(ga, fix_first_pose=False, max_iter=1, tol=0.0)
+                if how == "deepcopy":
+                    gb = copy.deepcopy(ga)
+                elif how == "pickle":
+                    gb = pickle.loads(pickle.dumps(ga))
+                else:
+                    ee, vv = copy.deepcopy((list(ga._edges), list(ga._vertices)))
+                    gb = M.Graph(ee, vv)
+                M.quiet_optimize(ga, fix_first_pose=False, max_iter=2, tol=0.0)
+                M.quiet_optimize(gb, fix_first_pose=False, max_iter=2, tol=0.0)
+            pa, pb = M.snapshot_poses(ga), M.snapshot_poses(gb)
+            same = all(len(p) == len(q) and all((x == y) or (x != x and y != y) for x, y in zip(p, q)) for p, q in zip(pa, pb))
+            linked = M.edges_linked_to_graph(gb)
+            ctx.check("result-representation-invariant", same and linked, dict(feats, variant="clone of a used graph: " + how), {"edges_attached_to_the_clone's_vertices": linked}, case)
+            ctx.count("class:cloned_graph:" + how)
+        except Exception as ex:
+            ctx.check("result-representation-invariant", False, dict(feats, variant="clone of a used graph: " + how, exception=type(ex).__name__), {"message": str(ex)[:300]}, case)
     if rel in ("split_edge", "relabel_ids") and changed:
         # the re-represented graph through the file entry point: the part of it that .g2o can express (SE(2)/SE(3) poses and the odometry edges among them)
         # is written, read back, and must still be the same physical graph (same chi2 as that part of the original)
